@@ -143,10 +143,10 @@ func concOp(kind string, row j.B, who string) bt.Op {
 		return bt.Op{Ev: "ReadRows", T: concTable, Now: j.N64(concNow)}
 	case "gc":
 		return bt.Op{Ev: "GcPass", T: concTable, Now: j.N64(concNow)}
-	case "mrows": // two entries on the same row, the first one failing at its second mutation (unknown family): all-or-nothing per entry
+	case "mrows": // two entries on the same row, the first one failing at its second mutation (unknown family), the second one succeeding: all-or-nothing per entry
 		return bt.Op{Ev: "MutateRows", T: concTable, Now: j.N64(concNow), Entries: []bt.Entry{
 			{K: row, Muts: []bt.Mut{{M: "set", F: j.S("f"), Q: j.S("a"), Ts: 3000, V: j.S(who)}, {M: "set", F: j.S("nofam"), Q: j.S("b"), Ts: 3000, V: j.S(who)}}},
-			{K: row, Muts: []bt.Mut{{M: "set", F: j.S("f"), Q: j.S("b"), Ts: 4000, V: j.S(who)}, {M: "set", F: j.S("f"), Q: j.S("c"), Ts: 1500, V: j.S(who)}}}}}
+			{K: row, Muts: []bt.Mut{{M: "set", F: j.S("f"), Q: j.S("b"), Ts: 4000, V: j.S(who)}, {M: "set", F: j.S("f"), Q: j.S("c"), Ts: 2000, V: j.S(who)}}}}}
 	}
 	panic(kind)
 }
